@@ -14,6 +14,12 @@ def run(check):
     check.guarded("ORDER", X.rule_order)
     check.guarded("FRESH-TEMP", X.rule_fresh_temp)
     check.guarded("KEPT-IN-PLACE", X.rule_kept_in_place)
+    from . import c06 as _c06
+    check.guarded("DECLARE-SCOPE", _c06.rule_declare_scope)
+    # every temporary a hook call uses is declared by the `let` of the block whose visitor created it
+    from ..engine import Only as _Only
+    check.rule("DECLARE-PATH", "the registered temporaries of a block's provider are exactly what the `let` injected into that block declares (an undeclared or shared temporary is a ReferenceError in strict code or a value clobbered by another activation)")
+    check.guarded("DECLARE-PATH", lambda c: _c06.rule_declare_path(_Only(c, "DECLARE-PATH", "DECLARE-PATH", ("/declares-registered", "/registered", "/provider-stores", "/let", "/each-ident", "/FLOOR/insert_variable_declaration", "/FLOOR/temporaries created"))))
     return {
         "explanation": "Counted-effect analysis of the hook argument vector over all structural paths (with summaries of crate-local callees), same-origin provenance rules between what is pushed and what is left in place, shape/order rules for the hook call and the method-call signature, and spread handling.",
         "assumptions": ["Take::map_with_mut runs its closure exactly once"],
